@@ -115,6 +115,90 @@ def literal_count_arrays(ctx, package, scratch):
 		ctx.fail('property', 'literal-count array without a sort key: layout / size / round trip with trailing bytes differs from the schema', {'expected': expected.hex()})
 
 
+SEQUENCE_PROGRAM = r'''
+import sys
+from catparser.__main__ import main
+jobs = sys.argv[1:]
+for position in range(0, len(jobs), 3):
+	root, include, output = jobs[position:position + 3]
+	sys.argv = ['catparser', '--schema', root, '--include', include, '--output', output, '--quiet', '--generator', 'generator.Generator']
+	main()
+'''
+
+
+def one_interpreter_sequences(ctx, package, scratch, run_id, generated):
+	"""Several random schemas compiled one after the other in ONE interpreter (the generator used as a library): schemas of this
+	generator re-use type names with different members, so anything an earlier compilation leaves behind under a type's name
+	shows as a difference from the text a fresh process emits for the same schema."""
+	import subprocess
+	from .common import REPO, ROOT
+	if len(generated) < 2:
+		return
+	rng = ctx.rng
+	groups = []
+	for _ in range(ctx.scale(3, 12)):
+		size = rng.choice([2, 3, 3])
+		picks = rng.sample(generated, min(size, len(generated)))
+		groups.append(picks + [picks[0]])  # ... and the first one again at the end
+	# ... and deliberately: a schema, then the same schema with one more member in every abstract struct (same type names, other
+	# members), then the first again
+	for index, root, directory, text in rng.sample(generated, min(len(generated), ctx.scale(3, 10))):
+		lines = text.split('\n')
+		changed = []
+		position = 0
+		while position < len(lines):
+			changed.append(lines[position])
+			if lines[position].startswith('abstract struct '):
+				position += 1
+				while position < len(lines) and lines[position].startswith('\t'):
+					changed.append(lines[position])
+					position += 1
+				changed.append('\tsequence_extra = uint16')
+				continue
+			position += 1
+		if changed == lines:
+			continue
+		twin_directory = directory + '_twin'
+		os.makedirs(twin_directory, exist_ok=True)
+		twin_root = os.path.join(twin_directory, 'root.cats')
+		with open(twin_root, 'wt', encoding='utf8') as outfile:
+			outfile.write('\n'.join(changed))
+		module, proc = package.generate(f'gen{index}twina', twin_root, twin_directory)
+		if module is None:
+			ctx.notes.append(f'twin of schema {index} not compiled: {proc.stderr[-200:]}')
+			continue
+		ctx.count('sequences:twin-schemas')
+		groups.append([(index, root, directory, text), (f'{index}twin', twin_root, twin_directory, '\n'.join(changed)), (index, root, directory, text)])
+	env = dict(os.environ)
+	env.update({
+		'PYTHONDONTWRITEBYTECODE': '1',
+		'PYTHONPATH': os.pathsep.join([os.path.join(REPO, 'catbuffer', 'parser'), os.path.join(REPO, 'sdk', 'python'), os.path.join(ROOT, 'shims')]),
+	})
+	for number, group in enumerate(groups):
+		arguments = []
+		outputs = []
+		for position, (index, root, directory, _) in enumerate(group):
+			output = os.path.join(scratch, f'sequence{run_id}_{number}_{position}')
+			outputs.append(output)
+			arguments += [root, directory, output]
+		proc = subprocess.run(['/venv/bin/python', '-c', SEQUENCE_PROGRAM] + arguments, cwd=scratch, env=env, capture_output=True, text=True, timeout=600, check=False)
+		order = [entry[0] for entry in group]
+		ctx.case(('sequence', tuple(entry[3] for entry in group)), {'schemas_compiled_in_one_interpreter': order} if 0 == number else None)
+		ctx.count('sequences-in-one-interpreter')
+		if 0 != proc.returncode:
+			ctx.fail('property', f'compiling the schemas {order} one after the other in one interpreter fails: exit {proc.returncode}', {
+				'schemas': [entry[3] for entry in group], 'stderr': proc.stderr[-1200:]})
+			continue
+		for position, (index, _, _, text) in enumerate(group):
+			with open(os.path.join(outputs[position], '__init__.py'), 'rt', encoding='utf8') as infile:
+				produced = infile.read()
+			if produced != package.text(f'gen{index}a'):
+				ctx.fail('property', (
+					f'schema number {position + 1} of {order}, compiled in one interpreter after the others, gives a module that differs from '
+					'what a fresh process emits for it'), {'schema': text, 'earlier_schemas': [entry[3] for entry in group[:position]]})
+				break
+
+
 def run(ctx):
 	# pylint: disable=too-many-locals
 	rng = ctx.rng
@@ -132,6 +216,7 @@ def run(ctx):
 		ctx.notes.append(f'emission-model driver not available: {ex}')
 	schema_count = 60 if ctx.search_mode else ctx.scale(12, 200)  # the failing-input search after a broken obligation stays within a few minutes
 	features = {}
+	generated = []
 	for index in range(schema_count):
 		generator = schemagen.SchemaGen(rng, variant=index + ctx.seed)
 		text = generator.build()
@@ -151,6 +236,7 @@ def run(ctx):
 			ctx.fail('property', 'the generator does not emit an importable module for a schema of the shipped dialect', dict(
 				ident, stdout=proc.stdout[-300:], stderr=proc.stderr[-1200:]), signature=crash_signature(proc.stderr))
 			continue
+		generated.append((index, root, directory, text))
 		_, proc2 = package.generate(f'gen{index}b', root, directory)
 		if package.text(f'gen{index}a') != package.text(f'gen{index}b'):
 			ctx.fail('property', 'generating twice gives different text', ident)
@@ -178,6 +264,7 @@ def run(ctx):
 			for failure in ctx.failures[failures_before:]:
 				if isinstance(failure.case, dict):
 					failure.case['schema'] = text
+	one_interpreter_sequences(ctx, package, scratch, run_id, generated)
 	for feature, amount in sorted(features.items()):
 		ctx.count(f'feature:{feature}', amount)
 	if body_driver is not None:
